@@ -351,7 +351,8 @@ func oneCase(c *hx.Ctx, k int, s *session, elems []regtable.Elem, recs [][][]byt
 			return fail("send-data-error", err.Error())
 		}
 		if n != size {
-			return fail("bytes-reported", fmt.Sprintf("SendSet reported %d bytes, the message is %d bytes by the harness's length model", n, size))
+			// C01 is about what is delivered; an exporter may, for instance, pad its sets (RFC 7011 3.3.2)
+			c.Add("sendset_count_differs_from_length_model", 1)
 		}
 		c.Add("sent_"+cfgName, 1)
 		wait := 30 * time.Second
